@@ -27,7 +27,12 @@ BOUND = {
 CHUNK = 128
 
 BAD = ['fail', 'error', 'uxs', 'sub:1,0,1', 'sub:0,1,1', 'sub:2,0,0',
-       'setup_err', 'teardown_err', 'cleanup_err', 'body+teardown', 'sysexit']
+       'setup_err', 'teardown_err', 'cleanup_err', 'body+teardown', 'sysexit',
+       # the failing test also writes to the real fd 2: bytes that are not
+       # UTF-8 / a line that ends in three integers
+       'fail~fd2b', 'error~fd2t']
+NOISE = {'fd2b': [['fd2b', 'caf\xe9 \xff\xfe\n', False]],
+         'fd2t': [['fd2', 'pool statistics (idle busy dead): 4 0 0\n', False]]}
 OPTS = {
     'x': ['-x'],
     'x+rep': ['-x', '--repeat', '2'],
@@ -145,7 +150,11 @@ def build_spec(case):
                     s = 'pass' if (idx - bad[1]) % 2 else 'fail'
             else:
                 s = 'pass'
-            tests.append({'n': 'q%d%s' % (idx, nm), 'l': lay, 's': s})
+            t = {'n': 'q%d%s' % (idx, nm), 'l': lay, 's': s}
+            if '~' in s:
+                t['s'], nz = s.split('~')
+                t['w'] = NOISE[nz]
+            tests.append(t)
             idx += 1
     return {'layers': layers, 'tests': tests}, list(OPTS[ok])
 
